@@ -10,6 +10,7 @@
 #define DRV_CODECS_NO_MAIN 1
 #include "drv_codecs.c"
 #include "varintFloat.h"
+#include "varintBitmap.h"
 #include <alloca.h>
 #include <malloc.h>
 
@@ -149,6 +150,13 @@ static const pcall CALLS[] = {
     {"float", 0, 64, "specials", 0},  {"float", 11, 64, "specials", 0}, {"float", 22, 64, "specials", 0},
     {"float", 30, 37, "specials", 0}, {"float", 12, 64, "normals", 0},  {"float", 21, 130, "normals", 0},
     {"float", 1, 9, "specials", 0},
+    /* set object: a history of operations (shape), then the serialisation and
+     * the exported members; every container conversion sits in one of them */
+    {"bitmap", 0, 0, "runs_add", 0},       {"bitmap", 0, 0, "runs_remove", 0},   {"bitmap", 0, 0, "runs_add8", 0},
+    {"bitmap", 0, 0, "runs_small_add", 0}, {"bitmap", 0, 0, "runs_small_remove", 0},
+    {"bitmap", 0, 0, "array_grow", 0},     {"bitmap", 0, 0, "bitmap_shrink", 0}, {"bitmap", 0, 0, "ranges", 0},
+    {"bitmap", 0, 0, "algebra", 0},        {"bitmap", 0, 0, "recoded", 0},       {"bitmap", 0, 0, "many", 0},
+    {"bitmap", 0, 0, "optimize", 0},
 };
 #define NCALLS (sizeof(CALLS) / sizeof(CALLS[0]))
 
@@ -331,6 +339,181 @@ static void run_float_call(size_t ci, const char *sched, const char *proc) {
     free(ys);
 }
 
+static void repaint(const char *sched, size_t n);
+/* the call class being exercised, for the late-crash hook */
+static char g_cur_id[96];
+static const char *g_cur_sched = "", *g_cur_proc = "";
+
+/* --- set-object histories ------------------------------------------------ */
+static varintBitmap *bm_from_runs(const uint16_t *pairs, uint32_t nruns) {
+    /* a run container as another writer would have serialised it */
+    uint8_t buf[9 + 4 * 16];
+    uint32_t card = 0;
+    for (uint32_t i = 0; i < nruns; i++) {
+        card += pairs[2 * i + 1];
+    }
+    buf[0] = (uint8_t)VARINT_BITMAP_RUNS;
+    memcpy(buf + 1, &card, 4);
+    memcpy(buf + 5, &nruns, 4);
+    memcpy(buf + 9, pairs, nruns * 4);
+    return varintBitmapDecode(buf, 9 + nruns * 4);
+}
+static __attribute__((noinline)) varintBitmap *bm_history(const char *h, uint64_t salt) {
+    varintBitmap *vb = varintBitmapCreate();
+    uint16_t k = (uint16_t)(salt % 7); /* previous calls use other contents */
+    if (!strcmp(h, "runs_add")) {
+        varintBitmapAddRange(vb, (uint16_t)(3 + k), (uint16_t)(6000 + k));
+        varintBitmapAdd(vb, (uint16_t)(7000 + k));
+    } else if (!strcmp(h, "runs_add8")) {
+        varintBitmapAddRange(vb, (uint16_t)(13 + k), (uint16_t)(9000 + k));
+        varintBitmapAdd(vb, (uint16_t)(9002 + k));
+        varintBitmapAdd(vb, 2);
+    } else if (!strcmp(h, "runs_remove")) {
+        varintBitmapAddRange(vb, (uint16_t)(5 + k), (uint16_t)(6001 + k));
+        varintBitmapRemove(vb, (uint16_t)(100 + k));
+    } else if (!strcmp(h, "runs_small_add") || !strcmp(h, "runs_small_remove")) {
+        uint16_t pairs[] = {(uint16_t)(1 + k), 10, (uint16_t)(100 + k), 3, (uint16_t)(65000 + k), 21};
+        varintBitmapFree(vb);
+        vb = bm_from_runs(pairs, 3);
+        if (vb && !strcmp(h, "runs_small_add")) {
+            varintBitmapAdd(vb, (uint16_t)(50 + k));
+        } else if (vb) {
+            varintBitmapRemove(vb, (uint16_t)(5 + k));
+        }
+    } else if (!strcmp(h, "array_grow")) {
+        for (uint32_t i = 0; i < 4100; i++) {
+            varintBitmapAdd(vb, (uint16_t)(i * 13 + 3 + k)); /* crosses 4096 members: array -> bitmap */
+        }
+    } else if (!strcmp(h, "bitmap_shrink")) {
+        for (uint32_t i = 0; i < 4200; i++) {
+            varintBitmapAdd(vb, (uint16_t)(i * 11 + 1 + k));
+        }
+        for (uint32_t i = 0; i < 300; i++) {
+            varintBitmapRemove(vb, (uint16_t)(i * 11 + 1 + k)); /* back below 4096: bitmap -> array */
+        }
+    } else if (!strcmp(h, "ranges")) {
+        varintBitmapAddRange(vb, (uint16_t)(10 + k), (uint16_t)(200 + k));
+        varintBitmapAddRange(vb, (uint16_t)(4000 + k), (uint16_t)(9000 + k));
+        varintBitmapRemoveRange(vb, (uint16_t)(4500 + k), (uint16_t)(8800 + k));
+        varintBitmapAddRange(vb, (uint16_t)(60000 + k), 65535);
+    } else if (!strcmp(h, "algebra")) {
+        varintBitmap *a = varintBitmapCreate(), *b = varintBitmapCreate();
+        varintBitmapAddRange(a, (uint16_t)(1 + k), (uint16_t)(5000 + k));
+        for (uint32_t i = 0; i < 900; i++) {
+            varintBitmapAdd(b, (uint16_t)(i * 7 + k));
+        }
+        varintBitmap *o = varintBitmapOr(a, b), *x = varintBitmapXor(a, b), *d = varintBitmapAndNot(o, x);
+        varintBitmap *r = varintBitmapAnd(d, a);
+        varintBitmapFree(vb);
+        vb = r;
+        varintBitmapFree(a);
+        varintBitmapFree(b);
+        varintBitmapFree(o);
+        varintBitmapFree(x);
+        varintBitmapFree(d);
+    } else if (!strcmp(h, "recoded")) {
+        for (uint32_t i = 0; i < 5000; i++) {
+            varintBitmapAdd(vb, (uint16_t)(i * 5 + k));
+        }
+        uint8_t *buf = malloc(varintBitmapSizeBytes(vb) + 64);
+        size_t w = varintBitmapEncode(vb, buf);
+        varintBitmap *c = varintBitmapDecode(buf, w);
+        free(buf);
+        varintBitmapFree(vb);
+        vb = c;
+        if (vb) {
+            varintBitmapAdd(vb, (uint16_t)(3 + k));
+        }
+    } else if (!strcmp(h, "many")) {
+        uint16_t vals[600];
+        for (uint32_t i = 0; i < 600; i++) {
+            vals[i] = (uint16_t)((i * 2654435761u + k) >> 7);
+        }
+        varintBitmapAddMany(vb, vals, 600);
+        varintBitmap *c = varintBitmapClone(vb);
+        varintBitmapFree(vb);
+        vb = c;
+    } else if (!strcmp(h, "optimize")) {
+        for (uint32_t i = 0; i < 3000; i++) {
+            varintBitmapAdd(vb, (uint16_t)(20 + k + i));
+        }
+        varintBitmapOptimize(vb);
+        if (vb) {
+            varintBitmapAdd(vb, (uint16_t)(9 + k));
+        }
+    }
+    return vb;
+}
+static const char *BM_HIST[] = {"runs_add", "runs_remove", "runs_add8", "runs_small_add", "runs_small_remove", "array_grow",
+                                "bitmap_shrink", "ranges", "algebra", "recoded", "many", "optimize"};
+static void bitmap_prev_cb(const char *arg, const void *ctx) {
+    const pcall *c = (const pcall *)ctx;
+    /* the same history on other contents, or another history; dropped again: its blocks are the residue */
+    const char *h = c->shape;
+    if (strncmp(arg, "same", 4)) {
+        size_t i = 0;
+        while (strcmp(BM_HIST[i], c->shape)) {
+            i++;
+        }
+        h = BM_HIST[(i + 5) % 12];
+    }
+    for (uint64_t salt = 1; salt <= 2; salt++) {
+        varintBitmap *p = NULL;
+        int pf = GUARDED(p = bm_history(h, salt));
+        if (!pf && p) {
+            /* leave every bit of its storage set before it goes back to the allocator */
+            (void)GUARDED(varintBitmapAddRange(p, 0, 65535));
+            (void)GUARDED(varintBitmapFree(p));
+        }
+    }
+}
+static void run_bitmap_call(size_t ci, const char *sched, const char *proc) {
+    const pcall *c = &CALLS[ci];
+    apply_sched(sched, 8192, ci, bitmap_prev_cb, c);
+    varintBitmap *vb = NULL;
+    int f = GUARDED(vb = bm_history(c->shape, 0));
+    size_t room = 8192 + 64 + 65536 * 2, written = 0;
+    uint8_t *dst = NULL;
+    uint16_t *members = NULL;
+    uint32_t nm = 0, card = 0;
+    int df = 0;
+    if (!f && vb) {
+        repaint(sched, 8192);
+        dst = malloc(room);
+        memset(dst, 0x3C, room);
+        members = malloc(65536 * 2);
+        memset(members, 0, 65536 * 2);
+        f = GUARDED(written = varintBitmapEncode(vb, dst));
+        df = GUARDED(nm = varintBitmapToArray(vb, members));
+        df = df ? df : GUARDED(card = varintBitmapCardinality(vb));
+    }
+    set_perturb(0x5E);
+    uint64_t h = 1469598103934665603ULL, hy = 1469598103934665603ULL;
+    for (size_t i = 0; !f && dst && i < written && i < room; i++) {
+        h = (h ^ dst[i]) * 1099511628211ULL;
+    }
+    for (size_t i = 0; !f && !df && members && i < nm; i++) {
+        hy = (hy ^ members[i]) * 1099511628211ULL;
+    }
+    hy = (hy ^ card) * 1099511628211ULL;
+    ev_begin("Call");
+    ev_str("id", g_cur_id);
+    ev_str("proc", proc);
+    ev_str("sched", sched);
+    ev_int("fault", f ? f : (vb ? df : 1));
+    ev_int("written", f || !vb ? -1 : (long long)written);
+    ev_limbs("digest", h);
+    ev_int("decoded", (long long)nm);
+    ev_limbs("ydigest", hy);
+    ev_bytes("head", dst ? dst : (const uint8_t *)"", f || !dst ? 0 : (written < 40 ? written : 40));
+    ev_end();
+    if (vb) {
+        (void)GUARDED(varintBitmapFree(vb));
+    }
+    free(dst);
+    free(members);
+}
+
 /* the stack / heap paints of a schedule, once more (directly before a reader) */
 static void repaint(const char *sched, size_t n) {
     char tmp[512];
@@ -350,9 +533,6 @@ static void repaint(const char *sched, size_t n) {
     }
 }
 
-/* the call class being exercised, for the late-crash hook */
-static char g_cur_id[96];
-static const char *g_cur_sched = "", *g_cur_proc = "";
 static void late_crash(int sig) {
     (void)sig;
     /* the heap was corrupted by a library call of this class under this
@@ -382,6 +562,10 @@ static void run_call(size_t ci, const char *sched, const char *proc) {
     g_late_crash = late_crash;
     if (!strcmp(c->codec, "float")) {
         run_float_call(ci, sched, proc);
+        return;
+    }
+    if (!strcmp(c->codec, "bitmap")) {
+        run_bitmap_call(ci, sched, proc);
         return;
     }
     int codec = -1;
